@@ -1108,16 +1108,43 @@ func (u *Unit) havocLoop(f *Frame, st *State, fn *ssa.Function, body map[int]boo
 					}
 					continue
 				}
+				// the callee: static, a closure value known in this frame, or (interface method,
+				// func-typed field) only a declared extern contract
 				callee := cc.StaticCallee()
+				var econ *Contract
+				if cc.IsInvoke() {
+					callee = nil
+					econ = u.ctx.externs[u.ctx.ifaceKey(cc)]
+				} else if callee == nil {
+					if v, ok := f.vals[cc.Value]; ok && v.Fn != nil {
+						callee = v.Fn
+					} else if fk := fieldFuncKey(cc.Value); fk != "" {
+						econ = u.ctx.externs[fk]
+					}
+				}
+				if econ != nil {
+					hs := map[string]types.Type{}
+					u.ctx.assignHeaps(u, econ, nil, hs)
+					if _, star := hs["*"]; star || econ.AssignsAll {
+						allHeaps = true
+					}
+					for k, t := range hs {
+						heaps[k] = t
+					}
+					u.ctx.assignGlobals(econ, nil, globals)
+				}
 				if callee == nil {
 					continue
 				}
 				hs, all := u.ctx.heapWrites(u, callee, 0)
-				if all {
+				if _, star := hs["*"]; all || star {
 					allHeaps = true
 				}
 				for k, t := range hs {
 					heaps[k] = t
+				}
+				for g := range u.ctx.globalWrites(u, callee, 0) {
+					globals[g] = true
 				}
 			}
 		}
